@@ -626,6 +626,9 @@ evaluate() const {
   case T_dynamic_cast:
   case T_const_cast:
   case T_reinterpret_cast:
+  case T_construct:
+    // T_construct with a simple type is the functional cast notation, as in
+    // int(x); for any other type we fall out at the bottom as before.
     assert(_u._typecast._op1 != nullptr);
     r1 = _u._typecast._op1->evaluate();
     if (r1._type != RT_error) {
@@ -648,7 +651,6 @@ evaluate() const {
     }
     return Result();
 
-  case T_construct:
   case T_default_construct:
   case T_aggregate_init:
   case T_empty_aggregate_init:
